@@ -293,6 +293,25 @@ def run_sharded(prog, cases, workdir, tag, shards=NPROC, timeout=3000):
     return out
 
 
+def run_sharded_files(prog, cases, workdir, tag, shards=NPROC, timeout=3000):
+    """As run_sharded, but returns [(case_slice_bounds, output file)] without loading the outputs."""
+    os.makedirs(workdir, exist_ok=True)
+    n = len(cases)
+    shards = max(1, min(shards, n))
+    bounds = [(n * i // shards, n * (i + 1) // shards) for i in range(shards)]
+
+    def one(i):
+        a, b = bounds[i]
+        cf = os.path.join(workdir, "%s.%d.cases" % (tag, i))
+        of = os.path.join(workdir, "%s.%d.out" % (tag, i))
+        write_lines(cf, cases[a:b])
+        run_prog(prog, cf, of, timeout=timeout)
+        return (bounds[i], of)
+
+    with ThreadPoolExecutor(max_workers=shards) as ex:
+        return list(ex.map(one, range(shards)))
+
+
 # ----------------------------------------------------------------------------- verdicts
 
 class Run:
